@@ -27,6 +27,8 @@ import (
 //	tryCall(h,m,args)   -> try{call} catch{}; then notify "ok"/"caught"
 //	seq(list)           -> for [m,args] in list: Contract.Call(self,m,All,args)
 //	onNEP17Payment(from,amount,data) -> abort when data=="reject", throw when data=="throw", else put("paid",amount)+notify
+//	oracleCb(url,userData,code,result) -> put("ores",result) put("ocode",code) notify(url); throw when userData=="fail"
+//	                       (callback of the native Oracle contract; a request is call(Oracle,"request",[url,filter,"oracleCb",userData,gas]))
 //	_deploy(data,isUpdate) -> put("dep",isUpdate)
 //	update(nef,manifest) destroy()
 type kContract struct {
@@ -254,6 +256,29 @@ func buildK(name string, variant byte) *kContract {
 			sys(w, interopnames.SystemStoragePut)
 			emit.Opcodes(w, opcode.LDARG1)
 			notifyTop(w)
+			emit.Opcodes(w, opcode.RET)
+		}},
+		{"oracleCb", 4, smartcontract.VoidType, func(b *io.BufBinWriter) {
+			// callback of the native Oracle contract: (url, userData, code, result)
+			w := b.BinWriter
+			emit.InitSlot(w, 0, 4)
+			emit.Opcodes(w, opcode.LDARG3)
+			emit.String(w, "ores")
+			sys(w, interopnames.SystemStorageGetContext)
+			sys(w, interopnames.SystemStoragePut)
+			emit.Opcodes(w, opcode.LDARG2)
+			emit.String(w, "ocode")
+			sys(w, interopnames.SystemStorageGetContext)
+			sys(w, interopnames.SystemStoragePut)
+			emit.Opcodes(w, opcode.LDARG0)
+			notifyTop(w)
+			emit.Opcodes(w, opcode.LDARG1)
+			emit.String(w, "fail")
+			emit.Opcodes(w, opcode.EQUAL)
+			// JMPIFNOT (2 bytes) over PUSHDATA1 "oracleCb" (2+8 bytes) and THROW (1 byte)
+			emit.Instruction(w, opcode.JMPIFNOT, []byte{2 + 10 + 1})
+			emit.String(w, "oracleCb")
+			emit.Opcodes(w, opcode.THROW)
 			emit.Opcodes(w, opcode.RET)
 		}},
 		{"_deploy", 2, smartcontract.VoidType, func(b *io.BufBinWriter) {
